@@ -330,7 +330,59 @@ func c02MaxSizeValues() []m.Packet {
 	for i := 0; i < 32766; i++ { // 12 + 8n octets: 262140
 		emptyBlocks.Blocks = append(emptyBlocks.Blocks, m.CCFBBlock{SSRC: uint32(i), BeginSeq: uint16(i)})
 	}
+	// just above 64 KiB: a size or offset kept in 16 bits comes out small again here (at the
+	// maximum it only loses its top bits), with content on both sides of the 65536th octet
+	just := 65536 + 40
+	firJust := &m.FIR{Sender: 3, Media: 4, Entries: make([]m.FIREntry, 8192+3)} // 12 + 8n = 65572
+	for i := range firJust.Entries {
+		firJust.Entries[i] = m.FIREntry{SSRC: 0x90000 + uint32(i), Seq: uint8(i * 3)}
+	}
+	ccfbJust := &m.CCFB{Sender: 1, Timestamp: 5}
+	for b := 0; b < 3; b++ { // 12 + 2*(8+2*16384) + (8+2*10) = 65592
+		n := 16384
+		if b == 2 {
+			n = 10
+		}
+		ms := make([]m.CCFBMetric, n)
+		for i := range ms {
+			ms[i] = m.CCFBMetric{Received: i%3 != 0, ECN: uint8(i % 4), ATO: uint16(i % 0x2000)}
+			if !ms[i].Received {
+				ms[i] = m.CCFBMetric{}
+			}
+		}
+		ccfbJust.Blocks = append(ccfbJust.Blocks, m.CCFBBlock{SSRC: uint32(0x70 + b), BeginSeq: 100, Metrics: ms})
+	}
+	sdesJust := &m.SDES{}
+	{
+		c1 := m.SDESChunk{Source: 21}
+		for i := 0; i < 255; i++ { // 4 + 255*257 + terminator: 65540 octets
+			txt := make([]byte, 255)
+			for j := range txt {
+				txt[j] = byte('a' + (i*7+j)%26)
+			}
+			c1.Items = append(c1.Items, m.SDESItem{Type: 2, Text: txt})
+		}
+		sdesJust.Chunks = []m.SDESChunk{c1, {Source: 22, Items: []m.SDESItem{{Type: 1, Text: []byte("behind")}}}}
+	}
+	twJust := &m.TWCC{Sender: 1, Media: 2, StatusCount: 3, Chunks: make([]m.TWCCChunk, 32770),
+		Deltas: []m.TWCCDelta{{Micros: 250}, {Large: true, Micros: -250 * 300}, {Micros: 250 * 200}}} // 20 + 65540 + 4
+	twJust.Chunks[32767] = m.TWCCChunk{Symbol: m.SymSmall, Run: 1}
+	twJust.Chunks[32768] = m.TWCCChunk{Symbol: m.SymLarge, Run: 1}
+	twJust.Chunks[32769] = m.TWCCChunk{Symbol: m.SymSmall, Run: 1}
+	gen.FixTWCCHeader(twJust, true)
+	xrJust := &m.XR{Sender: 6, Blocks: []m.XRBlock{
+		{BT: 77, TypeSpecific: 9, Body: make([]byte, 65536)},
+		{BT: m.XRRRT, NTP: 0x0102030405060708},
+		{BT: m.XRDLRR, Subs: []m.DLRRSub{{SSRC: 1, LastRR: 2, DLRR: 3}}},
+	}}
 	return []m.Packet{
+		{Kind: m.KSR, SR: &m.SR{SSRC: 1, NTP: 2, RTP: 3, Packets: 4, Octets: 5, Reports: maxReports, Ext: make([]byte, just-28-31*24)}},
+		{Kind: m.KRR, RR: &m.RR{SSRC: 1, Reports: maxReports, Ext: make([]byte, just-8-31*24)}},
+		{Kind: m.KFIR, FIR: firJust},
+		{Kind: m.KCCFB, CCFB: ccfbJust},
+		{Kind: m.KSDES, SDES: sdesJust},
+		{Kind: m.KTWCC, TWCC: twJust},
+		{Kind: m.KXR, XR: xrJust},
 		{Kind: m.KXR, XR: manyBlocks},
 		{Kind: m.KXR, XR: &m.XR{Sender: 2, Blocks: []m.XRBlock{rle}}},
 		{Kind: m.KXR, XR: &m.XR{Sender: 2, Blocks: []m.XRBlock{dlrr}}},
